@@ -9,17 +9,17 @@ Inductive robs := OOpenPlain | OOpenGz | OWrap | OPass | ORaise (e : exn).
 
 Definition robs_of_rplan (r : res rplan) : robs :=
   match r with
-  | Ok (ROpen _ false) => OOpenPlain
-  | Ok (ROpen _ true) => OOpenGz
-  | Ok RWrap => OWrap
+  | Ok (ROpen _ false _) => OOpenPlain
+  | Ok (ROpen _ true _) => OOpenGz
+  | Ok (RWrap _) => OWrap
   | Ok RPass => OPass
   | Err e => ORaise e
   end.
 Definition robs_of_wplan (r : res wplan) : robs :=
   match r with
-  | Ok (WOpen false) => OOpenPlain
-  | Ok (WOpen true) => OOpenGz
-  | Ok WWrap => OWrap
+  | Ok (WOpen false _) => OOpenPlain
+  | Ok (WOpen true _) => OOpenGz
+  | Ok (WWrap _) => OWrap
   | Ok WPass => OPass
   | Err e => ORaise e
   end.
@@ -30,9 +30,15 @@ Definition robs_eqb (a b : robs) : bool :=
   | _, _ => false
   end.
 
+Definition enc_is_param (e : encsel) : bool := match e with EncParam => true | EncLocale => false end.
+
 Inductive iocase :=
 | IORead (a : arg) (o : robs)
 | IOWrite (a : arg) (o : robs)
+(* the text layer of a handle the helper created: does its encoding follow the `encoding` parameter; the
+   text it delivered for the raw decoded content `raw` / the text that reached the target for the written text `txt` *)
+| IORLayer (a : arg) (enc_follows : bool) (raw got : string)
+| IOWLayer (a : arg) (enc_follows : bool) (linesep txt got : string)
 | IOUrl (f : string) (b : bool)          (* looks_like_url *)
 | IOGz (f : string) (b : bool).          (* looks_gzipped *)
 
@@ -40,6 +46,22 @@ Definition check_iocase (c : iocase) : bool :=
   match c with
   | IORead a o => robs_eqb (robs_of_rplan (open_for_reading a)) o
   | IOWrite a o => robs_eqb (robs_of_wplan (open_for_writing a)) o
+  | IORLayer a ef raw got =>
+      match open_for_reading a with
+      | Ok p => match rplan_layer p with
+                | Some l => Bool.eqb (enc_is_param (l_enc l)) ef && seqb (deliver (l_nl l) raw) got
+                | None => false
+                end
+      | Err _ => false
+      end
+  | IOWLayer a ef ls txt got =>
+      match open_for_writing a with
+      | Ok p => match wplan_layer p with
+                | Some l => Bool.eqb (enc_is_param (l_enc l)) ef && seqb (emit ls (l_nl l) txt) got
+                | None => false
+                end
+      | Err _ => false
+      end
   | IOUrl f b => Bool.eqb (looks_like_url f) b
   | IOGz f b => Bool.eqb (looks_gzipped f) b
   end.
